@@ -245,6 +245,23 @@ func newPlugin(c hCfg, missingFormats map[uint32]bool, telemetry bool) (*hPlugin
 	return hp, nil
 }
 
+// longLivedPlugin returns the plugin instance of this configuration that lives as long as the process.
+var longLived = map[string]*hPlugin{}
+var longLivedMu sync.Mutex
+
+func longLivedPlugin(c hCfg, telemetry bool) (*hPlugin, error) {
+	key := fmt.Sprintf("%+v|%v", c, telemetry)
+	if hp, ok := longLived[key]; ok {
+		return hp, nil
+	}
+	hp, err := newPlugin(c, nil, telemetry)
+	if err != nil {
+		return nil, err
+	}
+	longLived[key] = hp
+	return hp, nil
+}
+
 func (hp *hPlugin) loadAttestations(v any) {
 	for _, e := range jArr(v) {
 		rr := jget(e, "rr")
@@ -379,6 +396,18 @@ func init() {
 			return J{"harness-error": err.Error()}
 		}
 		o, ob, e := hp.callOutcome(jU64(in["seqNr"]), jOutcome(in["prev"]), aos)
+		// the same call on the node that has been running since the start of the run (one long-lived plugin per
+		// configuration, thousands of calls old): Outcome is a function of its arguments, so both must agree
+		longLivedMu.Lock() // OCR3 never runs two Outcome() calls of one instance at the same time
+		defer longLivedMu.Unlock()
+		if lived, lerr := longLivedPlugin(jCfg(in["cfg"]), jBool(in["telemetry"])); lerr == nil {
+			lived.cache.table = map[string]llo.RetirementReport{}
+			lived.loadAttestations(in["attestations"])
+			_, lob, le := lived.callOutcome(jU64(in["seqNr"]), jOutcome(in["prev"]), aos)
+			if (e == nil) != (le == nil) || !bytes.Equal(ob, lob) || (e != nil && jStr(e["err"]) != jStr(le["err"])) {
+				return J{"ok": nil, "_clobbered": true, "_clobbered_by": "Outcome() on the plugin instance that has served the whole run differs from Outcome() on a freshly built one (state kept between calls)"}
+			}
+		}
 		if e != nil {
 			return e
 		}
